@@ -3,6 +3,7 @@ package checks
 import (
 	"bytes"
 	"fmt"
+	"reflect"
 	"testing"
 
 	"github.com/veraison/psatoken"
@@ -102,11 +103,32 @@ func permutedToken(t *rapid.T, m *MClaims) []byte {
 	return icbor.Encode(icbor.Map(ps...))
 }
 
+// permutedTokenCompExtras: permutedToken plus unknown keys inside component
+// maps (which a conformant decoder ignores and an encoder must not re-emit).
+func permutedTokenCompExtras(t *rapid.T, m *MClaims) []byte {
+	n, _, err := icbor.Read(permutedToken(t, m))
+	if err != nil {
+		panic("VERIF-INFRA: " + err.Error())
+	}
+	if cs := n.MapGet(wireKey(m.Prof, CSwComps)); cs != nil && cs.Kind == icbor.KArray {
+		for _, cm := range cs.Items {
+			if cm.Kind != icbor.KMap || rapid.IntRange(0, 2).Draw(t, "comp.extra") != 0 {
+				continue
+			}
+			k := rapid.SampledFrom([]*icbor.Node{icbor.U(3), icbor.U(7), icbor.U(0), icbor.I(-1), icbor.Tstr("x"), icbor.U(1 << 33)}).Draw(t, "comp.extra.key")
+			v := rapid.SampledFrom([]*icbor.Node{icbor.U(1), icbor.Tstr("zzz"), icbor.Bstr([]byte{9}), icbor.Arr(), icbor.Null()}).Draw(t, "comp.extra.val")
+			pos := rapid.IntRange(0, len(cm.Pairs)).Draw(t, "comp.extra.pos")
+			cm.Pairs = append(cm.Pairs[:pos], append([][2]*icbor.Node{icbor.P(k, v)}, cm.Pairs[pos:]...)...)
+		}
+	}
+	return icbor.Encode(n)
+}
+
 func isBeyondBuilders(m *MClaims) bool { return !m.IsCanned() }
 
 func TestC10_WireFormat(t *testing.T) {
-	st := NewStats("C10", "TestC10_WireFormat", "rapid: valid claims-sets of both profiles built (a) through NewClaims+setters, (b) as struct literals, (c) by decoding independently encoded tokens with permuted key order and extra unknown keys (incl. the P1 no-measurements form); the bytes of ValidateAndEncodeClaimsToCBOR are parsed by the independent reader and compared key by key with the model's wire map (definite lengths, no duplicates/tags/trailing bytes, exact key set, exact values, bare-bstr nonce, never list+flag). Non-trivial = not the canned builder shape; distinct = class vector + route")
-	st.Require = []string{"route=setters", "route=literal", "route=decoded", "P1", "P2", "nomeas"}
+	st := NewStats("C10", "TestC10_WireFormat", "rapid: valid claims-sets of both profiles built (a) through NewClaims+setters, (b) as struct literals, (c) by decoding independently encoded tokens with permuted key order, extra unknown keys at top level and inside component maps (incl. the P1 no-measurements form), optionally followed by an in-place update of one decoded component through the object the getter returns; the bytes of ValidateAndEncodeClaimsToCBOR are parsed by the independent reader and compared key by key with the model's wire map (definite lengths, no duplicates/tags/trailing bytes, exact key set, exact values, bare-bstr nonce, never list+flag). Non-trivial = not the canned builder shape; distinct = class vector + route")
+	st.Require = []string{"route=setters", "route=literal", "route=decoded", "route=decoded+touched", "P1", "P2", "nomeas"}
 	defer st.Flush(t)
 	rapid.Check(t, func(t *rapid.T) {
 		p := drawProf(t)
@@ -123,10 +145,40 @@ func TestC10_WireFormat(t *testing.T) {
 		case "literal":
 			c, _ = m.BuildLiteral()
 		default:
-			tok := permutedToken(t, m)
+			tok := permutedTokenCompExtras(t, m)
 			c, err = psatoken.DecodeAndValidateClaimsFromCBOR(tok)
 			if err != nil {
 				t.Fatalf("conformant token rejected: %v\n token: %x [%s]", err, tok, m.ClassVector())
+			}
+			// optionally update a decoded component in place through the
+			// objects the getter hands out (the encoding must follow)
+			if len(m.Comps) > 0 && rapid.IntRange(0, 2).Draw(t, "touch") == 0 {
+				scs, gerr := c.GetSoftwareComponents()
+				if gerr != nil || len(scs) != len(m.Comps) {
+					t.Fatalf("C10: decoded token does not return its %d components: %v", len(m.Comps), gerr)
+				}
+				i := rapid.IntRange(0, len(scs)-1).Draw(t, "touch.idx")
+				switch rapid.IntRange(0, 3).Draw(t, "touch.field") {
+				case 0:
+					v := drawText(t, "touch.desc", true)
+					_ = scs[i].SetMeasurementDesc(v)
+					m.Comps[i].Desc = sp(v)
+				case 1:
+					v := drawText(t, "touch.ver", true)
+					_ = scs[i].SetVersion(v)
+					m.Comps[i].Version = sp(v)
+				case 2:
+					v := drawBytes(t, drawHashLen(t, "touch.vlen"), "touch.value")
+					if err := scs[i].SetMeasurementValue(append([]byte{}, v...)); err != nil {
+						t.Fatalf("C10: valid measurement value refused: %v", err)
+					}
+					m.Comps[i].Value = bp(v)
+				default:
+					v := drawText(t, "touch.type", true)
+					_ = scs[i].SetMeasurementType(v)
+					m.Comps[i].Type = sp(v)
+				}
+				route = "decoded+touched"
 			}
 		}
 		out, err := psatoken.ValidateAndEncodeClaimsToCBOR(c)
@@ -194,18 +246,74 @@ func c09RoundTrip(c psatoken.IClaims, valid bool, decode func([]byte) (psatoken.
 	return ""
 }
 
+func fmtI64(p *int64) string {
+	if p == nil {
+		return "absent"
+	}
+	return fmt.Sprint(*p)
+}
+
 func TestC09_RoundTrip(t *testing.T) {
-	st := NewStats("C09", "TestC09_RoundTrip", "rapid: (valid) claims-sets of both profiles via setters/literals -> EncodeClaimsToCBOR -> DecodeClaimsFromCBOR: identical getter results and byte-identical re-encoding; (invalid-but-decodable) model-generated invalid tokens encoded by the independent encoder, decoded, re-encoded: encoder error or same getter results. Non-trivial = beyond the canned builder sets (48/64-byte hashes, >=2 components, optional component text, non-ASCII text, negative client id, no-measurements after a decode, invalid-but-decodable); distinct = class vector + route")
-	st.Require = []string{"valid", "invalid-decoded", "P1", "P2", "nomeas-decoded"}
+	st := NewStats("C09", "TestC09_RoundTrip", "rapid: (valid) claims-sets of both profiles, and of a registered extension profile on each base profile (extra optional claim absent / zero / non-zero), via setters/literals -> EncodeClaimsToCBOR -> DecodeClaimsFromCBOR: identical getter results and byte-identical re-encoding; (invalid-but-decodable) model-generated invalid tokens encoded by the independent encoder, decoded, re-encoded: encoder error or same getter results. Non-trivial = beyond the canned builder sets (48/64-byte hashes, >=2 components, optional component text, non-ASCII text, negative client id, no-measurements after a decode, invalid-but-decodable); distinct = class vector + route")
+	st.Require = []string{"valid", "invalid-decoded", "P1", "P2", "nomeas-decoded", "extension"}
 	defer st.Flush(t)
+	registerMu.Lock()
+	defer registerMu.Unlock()
+	restore := psatoken.VerifCheckpointProfiles()
+	defer restore()
+	for _, pr := range []psatoken.IProfile{extP2Profile{}, extP1Profile{}} {
+		if err := psatoken.RegisterProfile(pr); err != nil {
+			t.Fatalf("VERIF-INFRA: %v", err)
+		}
+	}
 	rapid.Check(t, func(t *rapid.T) {
 		p := drawProf(t)
-		kind := rapid.SampledFrom([]string{"valid-setters", "valid-literal", "valid-decoded", "any-decoded", "any-decoded"}).Draw(t, "kind")
+		kind := rapid.SampledFrom([]string{"valid-setters", "valid-literal", "valid-decoded", "any-decoded", "any-decoded", "extension"}).Draw(t, "kind")
 		var m *MClaims
 		var c psatoken.IClaims
 		var err error
 		valid := true
+		decode := psatoken.DecodeClaimsFromCBOR
 		switch kind {
+		case "extension":
+			// a registered extension profile on either base profile, with the
+			// extra optional claim absent, zero, or non-zero
+			m = GenValid(t, p, true)
+			if p == P1 {
+				m.Profile = sp(P1Name)
+			}
+			var ts *int64
+			switch rapid.IntRange(0, 3).Draw(t, "ts") {
+			case 0:
+			case 1:
+				ts = new(int64)
+			default:
+				v := rapid.Int64Range(0, 1<<53).Draw(t, "tsval")
+				ts = &v
+			}
+			if c, err = buildExt(m, ts); err != nil {
+				t.Fatalf("VERIF-INFRA: %v", err)
+			}
+			if p == P1 {
+				// the CBOR dispatcher only looks at key 265: decode into a
+				// fresh instance of the profile
+				decode = func(b []byte) (psatoken.IClaims, error) {
+					d, err := psatoken.NewClaims(ExtP1Name)
+					if err != nil {
+						return nil, err
+					}
+					return d, hdm.Unmarshal(b, d)
+				}
+			}
+			orig := c
+			inner := decode
+			decode = func(b []byte) (psatoken.IClaims, error) {
+				d, err := inner(b)
+				if err == nil && !reflect.DeepEqual(extTimestamp(orig), extTimestamp(d)) {
+					return nil, fmt.Errorf("the extension's own claim changed in the round trip: %v -> %v (bytes %x)", fmtI64(extTimestamp(orig)), fmtI64(extTimestamp(d)), b)
+				}
+				return d, err
+			}
 		case "valid-setters":
 			m = GenValid(t, p, true)
 			if c, err = m.BuildSetters(); err != nil {
@@ -228,10 +336,13 @@ func TestC09_RoundTrip(t *testing.T) {
 				return
 			}
 		}
-		if msg := c09RoundTrip(c, valid, psatoken.DecodeClaimsFromCBOR); msg != "" {
+		if msg := c09RoundTrip(c, valid, decode); msg != "" {
 			t.Fatalf("C09 violated (%s): %s\n [%s]", kind, msg, m.ClassVector())
 		}
 		cls := []string{p.String()}
+		if kind == "extension" {
+			cls = append(cls, "extension")
+		}
 		if valid {
 			cls = append(cls, "valid")
 		} else {
